@@ -2,6 +2,7 @@
 import functools, json
 import stages as S
 import mm as M
+import layout as LY
 from stages import BASE, CONV, CONV_CORE, BORROW, UNIQ, COW, UNWRAP
 
 SIZED_MODULES = ["Triomphe.tla", "MC_Sized.tla"]
@@ -30,6 +31,20 @@ def c02(tier, seed):
     return [mm("C02", tier, "mm_clone_drop_t", [("c02_2x3", ops, 2, 3, 2, False), ("c02_3x3", ops, 3, 3, 1, False),
                                                  ("c02_4x2", ops, 4, 2, 1, False), ("c02_2x5", ops, 2, 5, 2, False),
                                                  ("c02_3x2h", ops + ["count"], 3, 2, 1, True)])]
+
+
+def lay(prop, tier, name):
+    return stage(LY.layout_stage, prop, tier, name)
+
+
+def c05(tier, seed):
+    return [lay("C05", tier, "layout_matrix_" + tier[0])]
+
+
+def c11(tier, seed):
+    ops = BASE + CONV + ["Borrow", "BorCopy", "Enter", "Exit"]
+    return [lay("C11", tier, "layout_matrix_" + tier[0]),
+            sized("C11", tier, "sized_raw_" + tier[0], ops, 3 if tier == "quick" else 4, 2, 1)]
 
 
 def c01(tier, seed):
@@ -81,8 +96,8 @@ def c09(tier, seed):
 def c12(tier, seed):
     ops = BASE + ["FromFirst", "FromSecond", "Borrow", "BorCopy", "Enter", "Exit", "IntoRaw", "FromRaw"]
     if tier == "quick":
-        return [sized("C12", tier, "sized_union_q", ops, 4, 2, 1, hows=("new", "newB"))]
-    return [sized("C12", tier, "sized_union_t", ops, 5, 2, 1, hows=("new", "newB"))]
+        return [sized("C12", tier, "sized_union_q", ops, 4, 2, 1, hows=("new", "newB")), lay("C12", tier, "layout_matrix_q")]
+    return [sized("C12", tier, "sized_union_t", ops, 5, 2, 1, hows=("new", "newB")), lay("C12", tier, "layout_matrix_t")]
 
 
 GRAPH_ASSUME = [
@@ -102,17 +117,27 @@ MM_ASSUME = [
 def any_replay(p, v):
     if "h" in v:
         return S.replay_graph_violation(p, v)
+    if v.get("key", "").startswith(("matrix:", "crash-in-matrix")):
+        return LY.replay_layout(p, v)
     return M.replay_mm(p, v)
 
 
+LAYOUT_ASSUME = [
+    "Layout.tla transcribes core::alloc::Layout::{extend, pad_to_align, array} and the repr(C) layout algorithm; rustc's Layout::for_value is the release-side ground truth on the real side",
+    "the real matrix is a sub-lattice of the TLC matrix (each cell is a monomorphisation); the spec side is exhaustive over sizes/alignments up to 64 and lengths up to the bound",
+    "the harness allocator records (size, align) at alloc and dealloc",
+]
+
 PROPS = {
+    "C05": {"level": "model_checking", "stages": c05, "assumptions": LAYOUT_ASSUME, "replay": any_replay},
+    "C11": {"level": "model_checking", "stages": c11, "assumptions": LAYOUT_ASSUME + GRAPH_ASSUME, "replay": any_replay},
     "C02": {"level": "model_checking", "stages": c02, "assumptions": MM_ASSUME, "replay": any_replay},
     "C01": {"level": "model_checking", "stages": c01, "assumptions": GRAPH_ASSUME, "replay": any_replay},
     "C03": {"level": "model_checking", "stages": c03, "assumptions": GRAPH_ASSUME + MM_ASSUME, "replay": any_replay},
     "C04": {"level": "model_checking", "stages": c04, "assumptions": GRAPH_ASSUME, "replay": any_replay},
     "C08": {"level": "model_checking", "stages": c08, "assumptions": GRAPH_ASSUME + MM_ASSUME, "replay": any_replay},
     "C09": {"level": "model_checking", "stages": c09, "assumptions": GRAPH_ASSUME + MM_ASSUME, "replay": any_replay},
-    "C12": {"level": "model_checking", "stages": c12, "assumptions": GRAPH_ASSUME, "replay": any_replay},
+    "C12": {"level": "model_checking", "stages": c12, "assumptions": GRAPH_ASSUME + LAYOUT_ASSUME, "replay": any_replay},
 }
 
 
